@@ -302,7 +302,7 @@ impl Drop for PatchGuard {
 /// The caller must ensure that `func` points to a valid, patchable code region.
 #[cfg(not(target_os = "macos"))]
 pub(crate) unsafe fn patch_function(func: *mut u8, patch: &[u8]) {
-    make_memory_writable_and_executable(func);
+    make_memory_writable_and_executable(func, patch.len());
 
     inject_asm_code(patch, func);
 }
@@ -373,26 +373,28 @@ pub(crate) unsafe fn patch_function(func: *mut u8, patch: &[u8]) {
 // MacOS forces memory to be writable or executable but not both. So we don't need an
 // implementation for it.
 #[cfg(not(target_os = "macos"))]
-unsafe fn make_memory_writable_and_executable(func: *mut u8) {
+unsafe fn make_memory_writable_and_executable(func: *mut u8, len: usize) {
     #[cfg(target_os = "linux")]
     {
-        make_memory_writable_and_executable_linux(func);
+        make_memory_writable_and_executable_linux(func, len);
     }
 
     #[cfg(target_os = "windows")]
     {
-        make_memory_writable_and_executable_windows(func);
+        make_memory_writable_and_executable_windows(func, len);
     }
 }
 
 #[cfg(target_os = "linux")]
-unsafe fn make_memory_writable_and_executable_linux(func: *mut u8) {
+unsafe fn make_memory_writable_and_executable_linux(func: *mut u8, len: usize) {
     let page_size = sysconf(_SC_PAGESIZE) as usize;
     let addr = func as usize;
     let page_start = addr & !(page_size - 1);
+    // The patched bytes may straddle a page boundary: cover every page of [func, func + len).
+    let last_page_start = (addr + len.max(1) - 1) & !(page_size - 1);
     if libc::mprotect(
         page_start as *mut c_void,
-        page_size,
+        last_page_start - page_start + page_size,
         PROT_READ | PROT_WRITE | PROT_EXEC,
     ) != 0
     {
@@ -401,16 +403,18 @@ unsafe fn make_memory_writable_and_executable_linux(func: *mut u8) {
 }
 
 #[cfg(target_os = "windows")]
-unsafe fn make_memory_writable_and_executable_windows(func: *const u8) {
+unsafe fn make_memory_writable_and_executable_windows(func: *const u8, len: usize) {
     let page_size = get_page_size();
     let addr = func as usize;
     let page_start = addr & !(page_size - 1);
+    // The patched bytes may straddle a page boundary: cover every page of [func, func + len).
+    let last_page_start = (addr + len.max(1) - 1) & !(page_size - 1);
 
     let mut old_protect: u32 = 0;
 
     let result = VirtualProtect(
         page_start as *mut c_void,
-        page_size,
+        last_page_start - page_start + page_size,
         PAGE_EXECUTE_READWRITE,
         &mut old_protect,
     );
